@@ -9,6 +9,7 @@ package main
 import (
 	"fmt"
 	"math/rand"
+	"strings"
 )
 
 type c06Mode struct {
@@ -18,6 +19,8 @@ type c06Mode struct {
 	BindReq bool // WithTokenBindingRequired
 	CDpop   bool // clients 1,3,5,7 registered with dpop_bound_access_tokens
 	CTLS    bool // clients 1,3,5,7 registered with tls_client_certificate_bound_access_tokens
+	MTLS    bool // WithMTLS although certificate binding is off: certificates reach the provider (client
+	// authentication) but must never count as a binding
 }
 
 var c06Modes = []c06Mode{
@@ -34,6 +37,8 @@ var c06Modes = []c06Mode{
 	{Name: "both-server-required", Dpop: 2, TLS: 2},
 	{Name: "both-client-required", Dpop: 1, TLS: 1, CDpop: true, CTLS: true},
 	{Name: "off-client-flags", CDpop: true, CTLS: true},
+	{Name: "dpop-optional+mtls-without-binding", Dpop: 1, MTLS: true},
+	{Name: "dpop-some-binding-required+mtls-without-binding", Dpop: 1, BindReq: true, MTLS: true},
 }
 
 const (
@@ -44,7 +49,7 @@ const (
 	c06C2 = unknownBase + 8002
 )
 
-func c06Spec(r *rand.Rand, m c06Mode, prefix string, flavour string) WorldSpec {
+func c06Spec(r *rand.Rand, m c06Mode, prefix string, flavour string, profile string) WorldSpec {
 	opts := []Opt{
 		{Name: "WithScopes", Scopes: serverScopes},
 		{Name: "WithAuthorizationCodeGrant"}, {Name: "WithClientCredentialsGrant"}, {Name: "WithImplicitGrant"},
@@ -73,7 +78,7 @@ func c06Spec(r *rand.Rand, m c06Mode, prefix string, flavour string) WorldSpec {
 		opts = append(opts, Opt{Name: "WithTokenBindingRequired"})
 	}
 	// certificates reach the provider only through WithMTLS's ClientCertFunc
-	if m.TLS > 0 || r.Intn(4) == 0 {
+	if m.TLS > 0 || m.MTLS || r.Intn(4) == 0 {
 		opts = append(opts, Opt{Name: "WithMTLS"})
 	}
 	if prefix != "" {
@@ -93,7 +98,7 @@ func c06Spec(r *rand.Rand, m c06Mode, prefix string, flavour string) WorldSpec {
 		{ID: 7, Grants: []string{"urn:openid:params:grant-type:ciba"}, Scopes: "openid email profile", CibaMode: "push", JWT: true,
 			DpopReq: m.CDpop, TLSReq: m.CTLS},
 	}
-	return WorldSpec{Profile: "openid", Opts: opts, Static: clients, Flavour: flavour}
+	return WorldSpec{Profile: profile, Opts: opts, Static: clients, Flavour: flavour}
 }
 
 func specHas(s WorldSpec, name string) bool {
@@ -193,7 +198,11 @@ type c06Hist struct {
 }
 
 func newC06Hist(r *rand.Rand, m c06Mode, prefix, flavour string) *c06Hist {
-	spec := c06Spec(r, m, prefix, flavour)
+	return newC06HistP(r, m, prefix, flavour, "openid")
+}
+
+func newC06HistP(r *rand.Rand, m c06Mode, prefix, flavour, profile string) *c06Hist {
+	spec := c06Spec(r, m, prefix, flavour, profile)
 	g, err := NewSysGen(r, spec)
 	if err != nil {
 		panic(err)
@@ -250,7 +259,94 @@ func (h *c06Hist) entryCC(devs []c06Dev, client int) {
 	}
 }
 
-// how a binding is announced before the code is redeemed
+// How a binding is announced before the code is redeemed: every channel the code reads, each with
+// its own key / certificate, so that channels can agree, disagree or be absent independently.
+//   POST /par          DPoP header (ParProof), dpop_jkt parameter (ParJkt), client certificate (ParCert)
+//   GET|POST /authorize  dpop_jkt parameter (OutJkt) - for a PAR flow it travels next to request_uri
+//                        ("outer" parameter: merged into the pushed ones under the OpenID profile,
+//                        ignored under FAPI)
+// The authorization endpoint itself reads neither a DPoP header nor a certificate.
+type c06Ann struct {
+	Par      bool
+	ParProof Handle
+	ParJkt   Handle
+	ParCert  Handle
+	OutJkt   Handle
+	Post     bool // POST /authorize instead of GET (not modelled: must not matter)
+}
+
+func c06HName(h Handle) string {
+	switch h {
+	case 0:
+		return "-"
+	case c06K1:
+		return "K1"
+	case c06K2:
+		return "K2"
+	case c06K3:
+		return "K3"
+	case c06C1:
+		return "C1"
+	case c06C2:
+		return "C2"
+	}
+	return "?"
+}
+
+func (a c06Ann) String() string {
+	if !a.Par {
+		return fmt.Sprintf("authorize[dpop_jkt=%s]", c06HName(a.OutJkt))
+	}
+	return fmt.Sprintf("par[proof=%s dpop_jkt=%s cert=%s]+authorize[dpop_jkt=%s]", c06HName(a.ParProof), c06HName(a.ParJkt), c06HName(a.ParCert), c06HName(a.OutJkt))
+}
+
+// the key / certificate the flow is bound to according to the documented precedence (a key proven
+// or named at /par, else the dpop_jkt of the front-channel request unless the profile ignores it):
+// used only to pick a redemption that should succeed, never as an oracle
+func (a c06Ann) specKey(fapi bool) Handle {
+	switch {
+	case a.ParProof != 0:
+		return a.ParProof
+	case a.ParJkt != 0:
+		return a.ParJkt
+	case a.OutJkt != 0 && !(fapi && a.Par):
+		return a.OutJkt
+	}
+	return 0
+}
+
+// which channels are used and whether the keys they name agree (summary of a random announcement)
+func (a c06Ann) shape() string {
+	var l []string
+	keys := map[Handle]bool{}
+	add := func(name string, h Handle, key bool) {
+		if h != 0 {
+			l = append(l, name)
+			if key {
+				keys[h] = true
+			}
+		}
+	}
+	add("par-proof", a.ParProof, true)
+	add("par-dpop_jkt", a.ParJkt, true)
+	add("par-cert", a.ParCert, false)
+	add("authorize-dpop_jkt", a.OutJkt, true)
+	s := "authorize"
+	if a.Par {
+		s = "par+authorize"
+	}
+	if len(l) == 0 {
+		return s + " nothing-announced"
+	}
+	s += " " + strings.Join(l, "+")
+	if len(keys) > 1 {
+		s += " (keys disagree)"
+	}
+	return s
+}
+
+// the named announcements the deviation catalogue is crossed with (c06dev); the effective key is
+// K1 / C1 in all of them but annParOtherKeyJkt, so the baseline accompaniment redeems the code
 const (
 	annNone = iota
 	annAuthorizeJkt
@@ -259,36 +355,50 @@ const (
 	annParCert
 	annParProofCert
 	annParOtherKeyJkt // PAR with dpop_jkt of K2: redemption with K1 must fail
+	annParProofOuterOther
+	annParJktOuterOther
+	annParOuterJkt
+	annParCertOuterJkt
+	annParProofJkt
+	annParProofCertOuterOther
 	annCount
 )
 
-var annNames = []string{"none", "authorize-dpop_jkt", "par-proof", "par-dpop_jkt", "par-cert", "par-proof+cert", "par-dpop_jkt-other"}
+var c06Anns = [annCount]c06Ann{
+	annNone:                   {},
+	annAuthorizeJkt:           {OutJkt: c06K1},
+	annParProof:               {Par: true, ParProof: c06K1},
+	annParJkt:                 {Par: true, ParJkt: c06K1},
+	annParCert:                {Par: true, ParCert: c06C1},
+	annParProofCert:           {Par: true, ParProof: c06K1, ParCert: c06C1},
+	annParOtherKeyJkt:         {Par: true, ParJkt: c06K2},
+	annParProofOuterOther:     {Par: true, ParProof: c06K1, OutJkt: c06K2},
+	annParJktOuterOther:       {Par: true, ParJkt: c06K1, OutJkt: c06K2},
+	annParOuterJkt:            {Par: true, OutJkt: c06K1},
+	annParCertOuterJkt:        {Par: true, ParCert: c06C1, OutJkt: c06K1},
+	annParProofJkt:            {Par: true, ParProof: c06K1, ParJkt: c06K1},
+	annParProofCertOuterOther: {Par: true, ParProof: c06K1, ParCert: c06C1, OutJkt: c06K2},
+}
 
-// authorize (possibly through PAR) for client, announcing a binding; returns the code
+// authorize (possibly through PAR) for client, announcing a binding; returns the answer of the
+// authorization endpoint (or of /par when that refused) and the parameters the code is tied to
 func (h *c06Hist) authorize(client int, ann int, respType string) (Obs, Params) {
+	return h.authorizeAnn(client, c06Anns[ann], respType)
+}
+
+func (h *c06Hist) authorizeAnn(client int, a c06Ann, respType string) (Obs, Params) {
 	spec := h.g.client(client)
 	scopes := c06Scopes(client)
 	p := Params{Redirect: spec.Redirects[0], RespType: respType, Scopes: scopes, State: "st-1", Nonce: "n-1"}
 	pol := Pol{Kind: "PolSuccess", Sub: "alice", Granted: scopes}
-	switch ann {
-	case annNone:
-		return h.g.do(Op{Kind: "Authorize", Client: client, Params: p, PolicyAvail: true, Pol: pol}), p
-	case annAuthorizeJkt:
-		p.DpopJkt = c06K1
-		return h.g.do(Op{Kind: "Authorize", Client: client, Params: p, PolicyAvail: true, Pol: pol}), p
+	if !a.Par {
+		p.DpopJkt = a.OutJkt
+		return h.g.do(Op{Kind: "Authorize", Client: client, Params: p, PolicyAvail: true, Pol: pol, Post: a.Post}), p
 	}
-	b := Bind{}
-	switch ann {
-	case annParProof:
-		b.Dpop = validProof(c06K1, 0)
-	case annParJkt:
-		p.DpopJkt = c06K1
-	case annParCert:
-		b.Cert = c06C1
-	case annParProofCert:
-		b.Dpop, b.Cert = validProof(c06K1, 0), c06C1
-	case annParOtherKeyJkt:
-		p.DpopJkt = c06K2
+	p.DpopJkt = a.ParJkt
+	b := Bind{Cert: a.ParCert}
+	if a.ParProof != 0 {
+		b.Dpop = validProof(a.ParProof, 0)
 	}
 	if !h.mtls {
 		b.Cert = 0
@@ -297,7 +407,8 @@ func (h *c06Hist) authorize(client int, ann int, respType string) (Obs, Params) 
 	if o.Kind != "Par" {
 		return o, p
 	}
-	return h.g.do(Op{Kind: "Authorize", Client: client, Params: Params{RequestURI: o.H, RespType: respType, Scopes: scopes}, PolicyAvail: true, Pol: pol}), p
+	outer := Params{RequestURI: o.H, RespType: respType, Scopes: scopes, DpopJkt: a.OutJkt}
+	return h.g.do(Op{Kind: "Authorize", Client: client, Params: outer, PolicyAvail: true, Pol: pol, Post: a.Post}), p
 }
 
 func c06Scopes(client int) string {
@@ -447,14 +558,17 @@ func (h *c06Hist) entryImplicit(devs []c06Dev, client int, ann int) {
 func (h *c06Hist) keyChoice(r *rand.Rand, ath Handle) (Bind, string) {
 	b := Bind{}
 	desc := ""
-	switch r.Intn(4) {
-	case 0, 1:
+	switch r.Intn(8) {
+	case 0, 1, 2:
 		b.Dpop = validProof(c06K1, ath)
 		desc = "K1"
-	case 2:
+	case 3, 4:
 		b.Dpop = validProof(c06K2, ath)
 		desc = "K2"
-	case 3:
+	case 5:
+		b.Dpop = validProof(c06K3, ath)
+		desc = "K3"
+	default:
 		desc = "nokey"
 	}
 	switch r.Intn(4) {
@@ -473,16 +587,33 @@ func (h *c06Hist) keyChoice(r *rand.Rand, ath Handle) (Bind, string) {
 	return b, desc
 }
 
-func (h *c06Hist) cross(r *rand.Rand) string {
+// a random point of the announcement space: every channel independently absent / K1 / K2 (C1 / C2)
+func c06RandomAnn(r *rand.Rand) c06Ann {
+	key := func() Handle { return pick(r, []Handle{0, 0, 0, c06K1, c06K1, c06K2}) }
+	a := c06Ann{Par: r.Intn(4) != 0, OutJkt: key(), Post: r.Intn(4) == 0}
+	if a.Par {
+		a.ParProof, a.ParJkt = key(), key()
+		a.ParCert = pick(r, []Handle{0, 0, 0, c06C1, c06C1, c06C2})
+		if a.ParProof != 0 && a.ParJkt != 0 && a.ParJkt != a.ParProof && r.Intn(4) != 0 {
+			a.ParJkt = a.ParProof // a proof and a dpop_jkt that disagree end the flow at /par: keep that rare
+		}
+	}
+	return a
+}
+
+func (h *c06Hist) fapi() bool { return h.g.W.Spec.Profile != "openid" }
+
+func (h *c06Hist) cross(r *rand.Rand, rec func(shape string)) string {
 	client := pick(r, []int{1, 3, 3, 2})
-	ann := r.Intn(annCount)
-	note := fmt.Sprintf("client=%d ann=%s", client, annNames[ann])
+	a := c06RandomAnn(r)
+	rec(a.shape())
+	note := fmt.Sprintf("client=%d ann=%s", client, a)
 	h.otherToken()
 	rts := pick(r, []string{"code", "code", "code", "code token", "code id_token token"})
-	if client == 2 {
+	if client == 2 || h.fapi() {
 		rts = "code"
 	}
-	o, p := h.authorize(client, ann, rts)
+	o, p := h.authorizeAnn(client, a, rts)
 	if o.Kind != "Nav" || o.NCode == 0 {
 		return note + " (authorize refused)"
 	}
@@ -505,17 +636,11 @@ func (h *c06Hist) cross(r *rand.Rand) string {
 	t := h.redeem(client, o.NCode, p, b)
 	if t.Kind != "Tokens" {
 		// a second attempt with the announced key and certificate: the code is gone by now
-		o2, p2 := h.authorize(client, ann, "code")
+		o2, p2 := h.authorizeAnn(client, a, "code")
 		if o2.Kind != "Nav" || o2.NCode == 0 {
 			return note
 		}
-		b = Bind{Dpop: validProof(c06K1, 0), Cert: c06C1}
-		if ann == annParOtherKeyJkt {
-			b.Dpop = validProof(c06K2, 0)
-		}
-		if !h.mtls {
-			b.Cert = 0
-		}
+		b = h.specBind(a)
 		t = h.redeem(client, o2.NCode, p2, b)
 		if t.Kind != "Tokens" {
 			return note
@@ -537,4 +662,243 @@ func (h *c06Hist) cross(r *rand.Rand) string {
 		}
 	}
 	return note
+}
+
+// the accompaniment that should redeem a code announced as a (documented precedence; K1 / C1 when
+// nothing was announced)
+func (h *c06Hist) specBind(a c06Ann) Bind {
+	k := a.specKey(h.fapi())
+	if k == 0 {
+		k = c06K1
+	}
+	b := Bind{Dpop: validProof(k, 0), Cert: a.ParCert}
+	if b.Cert == 0 {
+		b.Cert = c06C1
+	}
+	if !h.mtls {
+		b.Cert = 0
+	}
+	return b
+}
+
+// ---- the announcement matrix ----
+// Every combination of the channels a binding can be announced through
+//   direct:  /authorize with dpop_jkt in {-, K1, K2}
+//   pushed:  /par with DPoP header in {-, K1} x dpop_jkt in {-, K1, K2} x certificate in {-, C1},
+//            then /authorize?request_uri with an outer dpop_jkt in {-, K1, K2}
+// is one row; in a history of that row the flow is run once per redemption accompaniment
+// (proof for K1 / K2 / K3 / none, certificate C1 / C2 / none) for the code, and once more for a token
+// handed out by the authorization endpoint (implicit or hybrid), which is then presented at
+// /userinfo with each key.  The model says what must happen (correspondence), the monitor judges
+// the implementation's answers, and every (row, column, outcome) is counted in the matrix.
+func c06AnnMatrix() []c06Ann {
+	keys := []Handle{0, c06K1, c06K2}
+	var rows []c06Ann
+	for _, out := range keys {
+		rows = append(rows, c06Ann{OutJkt: out})
+	}
+	for _, proof := range []Handle{0, c06K1} {
+		for _, jkt := range keys {
+			for _, cert := range []Handle{0, c06C1} {
+				for _, out := range keys {
+					rows = append(rows, c06Ann{Par: true, ParProof: proof, ParJkt: jkt, ParCert: cert, OutJkt: out})
+				}
+			}
+		}
+	}
+	return rows
+}
+
+// the mode in which nothing but the announcement asks for a proof / certificate
+func c06OptionalMode(a c06Ann) c06Mode {
+	name := "both-optional"
+	key := a.ParProof != 0 || a.ParJkt != 0 || a.OutJkt != 0
+	switch {
+	case key && a.ParCert == 0:
+		name = "dpop-optional"
+	case !key && a.ParCert != 0:
+		name = "tls-optional"
+	}
+	for _, m := range c06Modes {
+		if m.Name == name {
+			return m
+		}
+	}
+	panic("c06: mode " + name)
+}
+
+func (h *c06Hist) lastEndpoint() string {
+	if n := len(h.g.Ops); n > 0 && h.g.Ops[n-1].Kind == "Par" {
+		return "par"
+	}
+	return "authorize"
+}
+
+type c06Acc struct{ Key, Cert Handle }
+
+func (h *c06Hist) accompaniments(r *rand.Rand, a c06Ann) []c06Acc {
+	c := Handle(0)
+	if h.mtls {
+		c = a.ParCert
+		if c == 0 {
+			c = c06C1
+		}
+	}
+	l := []c06Acc{{c06K1, c}, {c06K2, c}, {0, c}}
+	named := map[Handle]bool{a.ParProof: true, a.ParJkt: true, a.OutJkt: true}
+	if named[c06K1] && named[c06K2] {
+		l = append(l, c06Acc{c06K3, c}) // a key no channel named
+	}
+	if h.mtls {
+		k := a.specKey(h.fapi())
+		if k == 0 {
+			k = c06K1
+		}
+		l = append(l, c06Acc{k, c06C2}, c06Acc{k, 0})
+	}
+	r.Shuffle(len(l), func(i, j int) { l[i], l[j] = l[j], l[i] })
+	return l
+}
+
+func (x c06Acc) bind(ath Handle) Bind {
+	b := Bind{Cert: x.Cert}
+	if x.Key != 0 {
+		b.Dpop = validProof(x.Key, ath)
+	}
+	return b
+}
+
+func (x c06Acc) String() string { return c06HName(x.Key) + "/" + c06HName(x.Cert) }
+
+func c06Cells(cells map[c06Acc]string) string {
+	var l []string
+	for _, k := range []Handle{c06K1, c06K2, c06K3, 0} {
+		for _, c := range []Handle{c06C1, c06C2, 0} {
+			if v, ok := cells[c06Acc{k, c}]; ok {
+				l = append(l, c06Acc{k, c}.String()+":"+v)
+			}
+		}
+	}
+	return strings.Join(l, " ")
+}
+
+// one history of row a; rec receives the row of the covered matrix this history filled in:
+//   <profile> <announcement> -> code redeemed with [proof key/certificate:outcome ...]
+//   <profile> <announcement> -> token(authorize) used with [...]
+func (h *c06Hist) matrixRow(r *rand.Rand, a c06Ann, client int, rec func(row string)) {
+	a.Post = r.Intn(4) == 0
+	h.otherToken()
+	row := h.g.W.Spec.Profile + " " + a.String()
+	cells := map[c06Acc]string{}
+	refusedAt := ""
+	for _, x := range h.accompaniments(r, a) {
+		o, p := h.authorizeAnn(client, a, "code")
+		if o.Kind != "Nav" || o.NCode == 0 {
+			refusedAt = h.lastEndpoint()
+			break
+		}
+		t := h.redeem(client, o.NCode, p, x.bind(0))
+		if t.Kind == "Tokens" {
+			cells[x] = "ok"
+			h.introspect(t.At)
+		} else {
+			cells[x] = "no"
+		}
+	}
+	if refusedAt != "" {
+		rec(row + " -> code: refused at /" + refusedAt)
+	} else {
+		rec(row + " -> code redeemed with [" + c06Cells(cells) + "]")
+	}
+	// a token handed out by the authorization endpoint: bound through the announced key only
+	if h.fapi() || len(h.g.client(client).RespTypes) < 2 || refusedAt == "par" {
+		return
+	}
+	rt := pick(r, []string{"id_token token", "token", "code token", "code id_token token"})
+	o, p := h.authorizeAnn(client, a, rt)
+	if o.Kind != "Nav" || o.NAt == 0 {
+		rec(row + " -> token(authorize): refused at /" + h.lastEndpoint())
+		return
+	}
+	h.introspect(o.NAt)
+	cells = map[c06Acc]string{}
+	for _, x := range h.accompaniments(r, a) {
+		u := h.g.do(Op{Kind: "UserInfo", Tok: PTok{Kind: "PExact", H: o.NAt}, HasHeader: true, Bind: x.bind(o.NAt), Post: r.Intn(3) == 0})
+		cells[x] = "no"
+		if u.Kind == "UserInfo" {
+			cells[x] = "ok"
+		}
+	}
+	rec(row + " -> token(authorize) used with [" + c06Cells(cells) + "]")
+	if o.NCode != 0 {
+		// hybrid: the code of the same answer, redeemed with the key the flow is bound to
+		t := h.redeem(client, o.NCode, p, h.specBind(a))
+		if t.Kind == "Tokens" {
+			h.introspect(t.At)
+		}
+	}
+}
+
+// CIBA: the channel is the accompaniment of POST /bc-authorize.  A push-mode client's tokens are
+// bound to it (they are delivered, never fetched); for a poll-mode client it must not matter - the
+// tokens are bound to the key / certificate of the token request.  Either way the delivered tokens
+// are then presented with each key / certificate.
+func (h *c06Hist) cibaRow(r *rand.Rand, push bool, at c06Acc, rec func(row string)) {
+	h.otherToken()
+	row := fmt.Sprintf("%s bc-authorize(poll)[proof=%s cert=%s]", h.g.W.Spec.Profile, c06HName(at.Key), c06HName(at.Cert))
+	if push {
+		row = fmt.Sprintf("%s bc-authorize(push)[proof=%s cert=%s]", h.g.W.Spec.Profile, c06HName(at.Key), c06HName(at.Cert))
+	}
+	ann := c06Ann{ParProof: at.Key, ParCert: at.Cert}
+	b := at.bind(0)
+	if !h.mtls {
+		b.Cert = 0
+	}
+	use := func(tok Handle, what string) {
+		cells := map[c06Acc]string{}
+		for _, x := range h.accompaniments(r, ann) {
+			kind := pick(r, []string{"UserInfo", "UserInfo", "TokenInfoReq"})
+			u := h.g.do(Op{Kind: kind, Tok: PTok{Kind: "PExact", H: tok}, HasHeader: true, Bind: x.bind(tok), Post: kind == "UserInfo" && r.Intn(3) == 0})
+			cells[x] = "no"
+			if u.Kind == "UserInfo" || (u.Kind == "Intro" && u.Active) {
+				cells[x] = "ok"
+			}
+		}
+		rec(row + " -> " + what + " used with [" + c06Cells(cells) + "]")
+	}
+	if push {
+		o := h.g.do(Op{Kind: "BcAuthorize", Cred: h.cred(7), Params: Params{Scopes: "openid email", LoginHint: "alice", NotifToken: unknownBase + 5100},
+			InitOK: true, Sub: "alice", Granted: "openid email", Bind: b})
+		if o.Kind != "Ciba" {
+			rec(row + " -> refused at /bc-authorize")
+			return
+		}
+		n := h.g.do(Op{Kind: "NotifyOk", AuthReq: o.H, HG: "HgOk"})
+		for _, nf := range n.Notifs {
+			h.introspect(nf.At)
+			use(nf.At, "pushed token")
+		}
+		return
+	}
+	cells := map[c06Acc]string{}
+	var last Handle
+	var lastAcc c06Acc
+	for _, x := range h.accompaniments(r, ann) {
+		o := h.g.do(Op{Kind: "BcAuthorize", Cred: h.cred(5), Params: Params{Scopes: "openid email", LoginHint: "alice"}, InitOK: true, Sub: "alice", Granted: "openid email", Bind: b})
+		if o.Kind != "Ciba" {
+			rec(row + " -> refused at /bc-authorize")
+			return
+		}
+		t := h.g.do(Op{Kind: "Token", Grant: "urn:openid:params:grant-type:ciba", Cred: h.cred(5), AuthReq: o.H, HG: "HgOk", BA: "BaApprove", Bind: x.bind(0)})
+		cells[x] = "no"
+		if t.Kind == "Tokens" {
+			cells[x] = "ok"
+			h.introspect(t.At)
+			last, lastAcc = t.At, x
+		}
+	}
+	rec(row + " -> auth_req_id redeemed with [" + c06Cells(cells) + "]")
+	if last != 0 {
+		use(last, "token fetched with "+lastAcc.String())
+	}
 }
